@@ -39,14 +39,14 @@ def outdir(prop, *parts, clean=False):
 
 
 # --------------------------------------------------------------------------- build
-def build_harness():
-    """(Re)build the harness against /repo's current working tree, hooks on."""
+def build_harness(bin="vh"):
+    """(Re)build harness binary `bin` against /repo's current working tree, hooks on."""
     os.makedirs(OUT, exist_ok=True)
     t0 = time.time()
     with open(os.path.join(OUT, ".build.lock"), "w") as lk:
         fcntl.flock(lk, fcntl.LOCK_EX)
         env = dict(os.environ, CARGO_NET_OFFLINE="true")
-        p = subprocess.run(["cargo", "build", "--offline", "--quiet"], cwd=HARNESS, env=env,
+        p = subprocess.run(["cargo", "build", "--offline", "--quiet", "--bin", bin], cwd=HARNESS, env=env,
                            stdout=subprocess.PIPE, stderr=subprocess.STDOUT, text=True)
         if p.returncode != 0:
             sys.stdout.write(p.stdout[-6000:])
@@ -54,14 +54,14 @@ def build_harness():
     return time.time() - t0
 
 
-def run_vh(args, timeout=600, check=True, env=None):
-    """Run a harness sub-command.  Returns (returncode, stdout)."""
+def run_vh(args, timeout=600, check=True, env=None, bin="vh"):
+    """Run a harness binary.  Returns (returncode, stdout, stderr)."""
     e = dict(os.environ)
     e.setdefault("RUST_BACKTRACE", "0")
     if env:
         e.update(env)
     try:
-        p = subprocess.run([VH] + [str(a) for a in args], stdout=subprocess.PIPE,
+        p = subprocess.run([os.path.join(HARNESS, "target", "debug", bin)] + [str(a) for a in args], stdout=subprocess.PIPE,
                            stderr=subprocess.PIPE, text=True, timeout=timeout, env=e)
     except subprocess.TimeoutExpired:
         raise ToolError("harness timed out: vh %s" % " ".join(map(str, args)))
